@@ -413,3 +413,171 @@ pub fn sweep_bufsize(rep: &mut Report, max: usize) {
     }
     rep.sample("abuf-sweep", 1, || json!({"n": 8191, "effective": rule(8191)}));
 }
+
+// ---------------------------------------------------------------------------
+// C19 / C20 vectors
+
+/// Writes the reason phrase of every status code 100..999 (http crate's table) as ndjson for MC_Response.
+pub fn dump_reasons(path: &std::path::Path) {
+    use std::io::Write;
+    let mut f = std::fs::File::create(path).unwrap_or_else(|e| { eprintln!("cannot create {}: {e}", path.display()); std::process::exit(2) });
+    for code in 100u16..=999 {
+        let st = http::StatusCode::from_u16(code).expect("status code in range");
+        let reason = st.canonical_reason().unwrap_or("Custom");
+        writeln!(f, "{}", json!({"code": code, "reason": reason.as_bytes()})).expect("write");
+    }
+}
+
+/// Names for MC_VarName: every interned name (read from the crate's source) plus boundary lengths.
+pub fn dump_names(path: &std::path::Path, limit: usize) {
+    use std::io::Write;
+    let src = std::fs::read_to_string("/repo/src/cgi/intern.rs").unwrap_or_else(|e| { eprintln!("cannot read intern.rs: {e}"); std::process::exit(2) });
+    let mut names: Vec<String> = Vec::new();
+    let mut in_enum = false;
+    for line in src.lines() {
+        let t = line.trim();
+        if t.starts_with("pub enum StaticVarName") { in_enum = true; continue; }
+        if in_enum {
+            if t.starts_with('}') { break; }
+            if let Some(n) = t.strip_suffix(',') { if !n.is_empty() && n.chars().all(|c| c.is_ascii_uppercase() || c.is_ascii_digit() || c == '_') { names.push(n.to_string()); } }
+        }
+    }
+    if names.len() < 50 { eprintln!("could not read the interned names from intern.rs"); std::process::exit(2); }
+    let step = (names.len() / limit.max(1)).max(1);
+    let mut out: Vec<String> = names.iter().step_by(step).cloned().collect();
+    for len in [1usize, 2, 15, 16, 17, 31, 32, 33, 48] { out.push((0..len).map(|i| char::from(b'A' + ((i * 5 + len) % 26) as u8)).collect()); }
+    out.push("x-Custom-Header_1".into());
+    let mut f = std::fs::File::create(path).unwrap_or_else(|e| { eprintln!("cannot create {}: {e}", path.display()); std::process::exit(2) });
+    for n in out { writeln!(f, "{}", json!({"n": n.as_bytes()})).expect("write"); }
+}
+
+/// A hasher that records the calls it receives.
+#[derive(Default)]
+struct RecHasher { writes: Vec<Vec<u8>> }
+impl std::hash::Hasher for RecHasher {
+    fn finish(&self) -> u64 { 0 }
+    fn write(&mut self, bytes: &[u8]) { self.writes.push(bytes.to_vec()); }
+}
+
+fn hash_calls<T: std::hash::Hash + ?Sized>(x: &T) -> Vec<Vec<u8>> { let mut h = RecHasher::default(); x.hash(&mut h); h.writes }
+fn std_hash<T: std::hash::Hash + ?Sized>(x: &T) -> u64 { use std::hash::Hasher; let mut h = std::collections::hash_map::DefaultHasher::new(); x.hash(&mut h); h.finish() }
+
+fn ord_str(o: std::cmp::Ordering) -> &'static str { match o { std::cmp::Ordering::Less => "lt", std::cmp::Ordering::Equal => "eq", std::cmp::Ordering::Greater => "gt" } }
+
+pub fn check_name_vector(v: &Value) -> (Vec<String>, Vec<String>) {
+    use fastcgi_server::cgi::{OwnedVarName, VarName};
+    use std::borrow::{Borrow, Cow};
+    let mut mm = Vec::new();
+    let mut drift = Vec::new();
+    let (a, b) = (bytes_of(&v["a"]), bytes_of(&v["b"]));
+    let (Ok(sa), Ok(sb)) = (String::from_utf8(a.clone()), String::from_utf8(b.clone())) else { return (mm, drift) }; // not a &str: outside the types' domain
+    let (va, vb) = (VarName::new(&sa), VarName::new(&sb));
+    let eq = crate::tlcin::b(v, "eq");
+    let cmp = s(v, "cmp");
+    if (va == vb) != eq { mm.push(format!("VarName {sa:?} == {sb:?} is {}, specification {eq}", va == vb)); }
+    if ord_str(va.cmp(vb)) != cmp { mm.push(format!("VarName {sa:?} cmp {sb:?} is {}, specification {cmp}", ord_str(va.cmp(vb)))); }
+    let want_ha: Vec<Vec<u8>> = v["ha"].as_array().map(|x| x.iter().map(bytes_of).collect()).unwrap_or_default();
+    let (ha, hb) = (hash_calls(va), hash_calls(vb));
+    if eq && ha != hb { mm.push(format!("equal names {sa:?} / {sb:?} feed different call sequences to a hasher")); }
+    if eq && std_hash(va) != std_hash(vb) { mm.push(format!("equal names {sa:?} / {sb:?} hash differently")); }
+    if ha != want_ha { drift.push(format!("hash writes of {sa:?} are {ha:?}, modelled {want_ha:?}")); }
+    // owned names through every constructor agree with the borrowed type
+    let ctors: Vec<(&str, OwnedVarName, bool)> = vec![
+        ("From<&str>", OwnedVarName::from(sa.as_str()), false),
+        ("From<String>", OwnedVarName::from(sa.clone()), true),
+        ("From<Box<str>>", OwnedVarName::from(sa.clone().into_boxed_str()), true),
+        ("From<Cow::Borrowed>", OwnedVarName::from(Cow::Borrowed(sa.as_str())), false),
+        ("From<Cow::Owned>", OwnedVarName::from(Cow::<str>::Owned(sa.clone())), true),
+        ("from_mut_str", { let mut t = sa.clone(); OwnedVarName::from_mut_str(&mut t) }, true),
+        ("ToOwned", va.to_owned(), false),
+        ("From<&VarName>", OwnedVarName::from(va), false),
+    ];
+    let upper = String::from_utf8(bytes_of(&v["ua"])).unwrap_or_default();
+    let ob = OwnedVarName::from(sb.as_str());
+    for (name, o, normalising) in &ctors {
+        let bor: &VarName = o.borrow();
+        if bor != va || ord_str(bor.cmp(va)) != "eq" { mm.push(format!("{name}({sa:?}) does not equal the borrowed name")); }
+        if hash_calls(o) != ha { mm.push(format!("{name}({sa:?}) hashes differently from the borrowed name")); }
+        if (*o == ob) != eq { mm.push(format!("{name}({sa:?}) == OwnedVarName({sb:?}) is {}, specification {eq}", *o == ob)); }
+        if ord_str(o.cmp(&ob)) != cmp { mm.push(format!("{name}({sa:?}) cmp OwnedVarName({sb:?}) is {}, specification {cmp}", ord_str(o.cmp(&ob)))); }
+        if *normalising && o.as_ref() != upper { mm.push(format!("{name}({sa:?}) reads back as {:?}, specification: the ASCII-uppercased string {upper:?}", o.as_ref())); }
+        if !normalising && !o.as_ref().eq_ignore_ascii_case(&sa) { mm.push(format!("{name}({sa:?}) reads back as {:?}", o.as_ref())); }
+    }
+    // map lookup by any spelling
+    let mut map = std::collections::HashMap::new();
+    map.insert(OwnedVarName::from(sa.clone()), 1u8);
+    if map.contains_key(vb) != eq { mm.push(format!("map with key {sa:?} looked up by {sb:?}: found = {}, specification {eq}", map.contains_key(vb))); }
+    // interned names read back canonically
+    if let Ok(st) = upper.parse::<fastcgi_server::cgi::StaticVarName>() {
+        let o = OwnedVarName::from(st);
+        if o.as_ref() != upper { mm.push(format!("interned name reads back as {:?}, canonical spelling {upper:?}", o.as_ref())); }
+        let bor: &VarName = o.borrow();
+        if bor != va { mm.push(format!("interned {upper:?} does not equal {sa:?}")); }
+        if hash_calls(&o) != ha { mm.push(format!("interned {upper:?} hashes differently from {sa:?}")); }
+        let via: &VarName = st.into();
+        if via != va { mm.push(format!("StaticVarName -> &VarName for {upper:?} does not equal {sa:?}")); }
+    }
+    // HTTP header name mapping (header names are lower case, ASCII, token characters)
+    let lower = sa.to_ascii_lowercase();
+    if let Ok(hn) = http::header::HeaderName::from_bytes(lower.as_bytes()) {
+        let o = OwnedVarName::from(&hn);
+        let want = String::from_utf8(bytes_of(&v["hv"])).unwrap_or_default();
+        if o.as_ref() != want { mm.push(format!("header {lower:?} maps to {:?}, specification {want:?}", o.as_ref())); }
+    }
+    (mm, drift)
+}
+
+pub fn check_response_vector(v: &Value) -> Vec<String> {
+    use fastcgi_server::cgi::response;
+    let mut mm = Vec::new();
+    let want = bytes_of(&v["bytes"]);
+    let cap = u(v, "cap") as usize;
+    let ok = crate::tlcin::b(&v["w"], "ok");
+    let n = u(&v["w"], "n") as usize;
+    let mut dst = vec![0xEEu8; cap];
+    let res = if s(v, "t") == "redir" {
+        let loc = String::from_utf8(bytes_of(&v["loc"])).unwrap_or_default();
+        let r = response::simple_redirect(&mut dst[..], &loc);
+        if cap >= want.len() { let mut vec = Vec::new(); let rv = response::simple_redirect(&mut vec, &loc); if vec != want || rv.as_ref().ok() != Some(&want.len()) { mm.push(format!("redirect into Vec gives {vec:?} / {rv:?}, specification {want:?}")); } }
+        r
+    } else {
+        let code = http::StatusCode::from_u16(u(v, "code") as u16).expect("code");
+        let hs: Vec<(Vec<u8>, Vec<u8>)> = v["hs"].as_array().map(|a| a.iter().map(|p| (bytes_of(&p[0]), bytes_of(&p[1]))).collect()).unwrap_or_default();
+        let it = hs.iter().map(|(n, v)| (n.as_slice(), v.as_slice()));
+        let r = response::write_headers(&mut dst[..], code, it.clone());
+        if cap >= want.len() { let mut vec = Vec::new(); let rv = response::write_headers(&mut vec, code, it); if vec != want || rv.as_ref().ok() != Some(&want.len()) { mm.push(format!("headers into Vec give {:?} / {rv:?}, specification {:?}", String::from_utf8_lossy(&vec), String::from_utf8_lossy(&want))); } }
+        // http_headers agrees for header lists the http crate accepts
+        if cap >= want.len() {
+            let mut b = http::Response::builder().status(code);
+            let mut usable = true;
+            for (n, val) in &hs { match (http::header::HeaderName::from_bytes(n), http::header::HeaderValue::from_bytes(val)) { (Ok(hn), Ok(hv)) => b = b.header(hn, hv), _ => usable = false } }
+            if usable && hs.len() <= 1 { if let Ok(resp) = b.body(()) { let mut vec = Vec::new(); let rv = response::http_headers(&mut vec, &resp); if vec != want || rv.ok() != Some(want.len()) { mm.push(format!("http_headers gives {:?}, specification {:?}", String::from_utf8_lossy(&vec), String::from_utf8_lossy(&want))); } } }
+        }
+        r
+    };
+    match res {
+        Ok(k) => {
+            if !ok { mm.push(format!("reported success ({k} bytes) into a destination of {cap} bytes, specification: fails ({} bytes needed)", want.len())); }
+            else if k != n || dst[..k.min(cap)] != want[..] { mm.push(format!("wrote {:?} and returned {k}, specification {:?} / {n}", String::from_utf8_lossy(&dst[..k.min(cap)]), String::from_utf8_lossy(&want))); }
+        },
+        Err(_) => if ok { mm.push(format!("failed although the destination has room ({cap} >= {})", want.len())); },
+    }
+    mm
+}
+
+pub fn run_cgi_vectors(prop: &str, input: impl BufRead, log: Option<std::fs::File>, rep: &mut Report) {
+    for_each_vector(input, log, |v| {
+        let t = s(&v, "t").to_string();
+        rep.count(&t, &v.to_string(), true);
+        rep.sample(&t, 2, || v.clone());
+        if rep.too_many_violations() { return; }
+        let res = catch_unwind(AssertUnwindSafe(|| if t == "vn" { check_name_vector(&v) } else { (check_response_vector(&v), vec![]) }));
+        match res {
+            Ok((mm, drift)) => {
+                for what in mm { rep.violation(prop, &what, json!({"kind": "cgi-vector", "vector": v})); }
+                for d in drift { rep.drift(d); }
+            },
+            Err(_) => rep.violation(prop, "panic in code under test", json!({"kind": "cgi-vector", "vector": v})),
+        }
+    });
+}
